@@ -177,6 +177,25 @@ def series_name(s):
 
 
 # ---- guards ---------------------------------------------------------------------------------------------
+def GX(x, lits_, raws):
+    """G(x) extended by a split case given both as literals and as raw conditions (restricted deeply)."""
+    g = G(x, extra=lits_)
+    for _ in range(3):
+        add = []
+        for c, pol in raws:
+            try:
+                c2 = sym.restrict(c, g)
+                for l in sym.literals(c2, pol):
+                    if l not in g:
+                        add.append(l)
+            except Exception:
+                pass
+        if not add:
+            break
+        g = sym.sat(tuple(g) + tuple(add))
+    return g
+
+
 def G(x, extra=()):
     """Saturated canonical literal set of an event / state, with the gated phi nodes *inside* its
     conditions resolved against the other literals (so `is_zero(val)` tested inside `if self.children:`
